@@ -44,6 +44,15 @@ def _one(case, rec, cid, p):
         rec.ev("StrTrip", cid, p=pp, ok=True, cls="", **v)
     else:
         rec.ev("StrTrip", cid, p=pp, ok=False, cls=type(v).__name__, text=[], q=pp, text2=[], eq=False)
+    def props():
+        from harness.common import I
+        return dict(cen=I(p.century), yoc=I(p.year_of_century), yod=I(p.year_of_decade), doc=I(p.decade_of_century), ysign=ord(p.year_sign),
+                    zsign=ord(p.time_zone_sign), zha=I(p.time_zone_hour_abs), zma=I(p.time_zone_minute_abs), sod=I(int(p.get_second_of_day())))
+    st, v = outcome(props)
+    if st == "ok":
+        rec.ev("Props", cid, p=pp, ok=True, cls="", **v)
+    else:
+        rec.ev("Props", cid, p=pp, ok=False, cls=type(v).__name__, cen=0, yoc=0, yod=0, doc=0, ysign=0, zsign=0, zha=0, zma=0, sod=0)
     for fmt in case.get("fmts", []):
         def g(fmt=fmt):
             d = _D.setdefault(xd, TimePointDumper(num_expanded_year_digits=xd))
